@@ -44,6 +44,25 @@ func init() {
 				c.Emit(cs)
 			}
 		}
+		// authorities that misbehave in time; run beside the (sequential, mostly idle) sign cases
+		var timed []*timedCase
+		timedDone := make(chan struct{})
+		if all || want["timed"] {
+			timed = buildTimedCases(c.Tier)
+			go func() {
+				runParallel(len(timed), 16, func(i int) { f.runTimed(timed[i]) })
+				close(timedDone)
+			}()
+		} else {
+			close(timedDone)
+		}
+		emitTimed := func() {
+			<-timedDone
+			for _, cs := range timed {
+				c.Emit(cs)
+			}
+		}
+		defer emitTimed()
 		if all || want["sign"] {
 			env, err := f.newSignEnv(filepath.Join(c.Scratch, "sign"))
 			if err != nil {
@@ -177,6 +196,15 @@ func replay(c *core.Ctx, f *fakeTSA, p *pki) error {
 			if err := qenv.runAll([]*vseqCase{cs}); err != nil {
 				return err
 			}
+			c.Emit(cs)
+		case "timed":
+			in := &timedCase{}
+			if err := json.Unmarshal(line, in); err != nil {
+				return err
+			}
+			cs := &timedCase{ID: in.ID, Kind: "timed", Style: in.Style, Via: in.Via, TimeoutS: in.TimeoutS, CtxMS: in.CtxMS, CtxClass: in.CtxClass,
+				RateLimit: in.RateLimit, Auths: in.Auths, CapMS: in.CapMS, EncDig: in.EncDig}
+			f.runTimed(cs)
 			c.Emit(cs)
 		case "cache":
 			in := &cacheCase{}
